@@ -79,6 +79,32 @@ fn compile_with(src: &str, target: prqlc::Target, ids: &mut HashMap<String, i64>
     }
 }
 
+fn run_main_path(src: &str, opt: &str, ids: &mut HashMap<String, i64>, unk: &str) -> Option<(i64, String)> {
+    let name = match opt {
+        "absent" => None,
+        "any" => Some("sql.any".to_string()),
+        "unknown" => Some(unk.trim().to_string()),
+        d => Some(format!("sql.{d}")),
+    };
+    let target = match name {
+        None => prqlc::Target::Sql(None),
+        Some(n) => prqlc::Target::from_str(&n).ok()?,
+    };
+    let o = prqlc::Options::default().no_format().no_signature().with_target(target);
+    let r = api::guarded(|| {
+        prqlc::prql_to_pl(src)
+            .and_then(|pl| prqlc::pl_to_rq_tree(pl, &["main".to_string()], &["default_db".to_string()]))
+            .and_then(|rq| prqlc::rq_to_sql(rq, &o))
+    });
+    match r {
+        api::Outcome::Ok(sql) => {
+            let n = ids.len() as i64 + 1;
+            Some((*ids.entry(sql).or_insert(n), "sql".into()))
+        }
+        _ => None,
+    }
+}
+
 /// args: <cells.ndjson> <programs.json: ["prql text", ...]> <out.ndjson>
 pub fn main(args: &[String]) -> i32 {
     let cells: Vec<J> = std::fs::read_to_string(&args[0]).expect("cells").lines().filter(|l| !l.trim().is_empty())
@@ -101,6 +127,13 @@ pub fn main(args: &[String]) -> i32 {
                 let src = format!("{}{}", header(hdr, unk), p);
                 let (id, stage, rq) = run(&src, opt, &mut ids, unk);
                 writeln!(out, "{}", json!({"event":"Cell","prog":pi,"opt":opt,"hdr":hdr,"outcome":id,"stage":stage,"rq":rq,"spelling":unk})).unwrap();
+                // the same cell through the staged API with the main pipeline named explicitly (what `prqlc compile
+                // <file> - main` and the bindings' project entry points do): the header must count there as well
+                if stage == "sql" {
+                    if let Some((id2, stage2)) = run_main_path(&src, opt, &mut ids, unk) {
+                        writeln!(out, "{}", json!({"event":"Cell","prog":pi,"opt":opt,"hdr":hdr,"outcome":id2,"stage":stage2,"rq":rq,"spelling":unk,"route":"main-path"})).unwrap();
+                    }
+                }
             }
         }
     }
